@@ -179,8 +179,11 @@ def judge_landing(case, obs):
     if kind in ('P', 'PP', 'R', 'PR'):
         # once the child has handed over its final result and state (the tail of its run function) the parent may already
         # hold the final value although the child has not exited yet: that is the end of life the statement speaks about
-        ssig = land.site_sig(case['_site'], REPO) if case.get('_site') else ''
+        real_site = landed.get('site') or case.get('_site')
+        ssig = land.site_sig(real_site, REPO) if real_site else ''
         tail = any(ssig.startswith(p) for p in ('remote.py:_run_backend:try#1.finally', 'remote.py:_run_backend:body', 'process.py:_run:try#1.finally'))
+        # (the parent already holds the child's final result at that moment)
+        tail = tail or obs.get('has_error_while_paused') in (True, False)
         final_ok = tail and obs.get('state_while_alive') == landed.get('user_state')
         if obs.get('alive_while_paused') is True and obs.get('state_while_alive', 'X') != case['init_state'] and not final_ok:
             bad.append(('parent-sees-child-state-while-alive', {'got': obs.get('state_while_alive'), 'initial': case['init_state']}))
@@ -251,7 +254,7 @@ def run(ctx):
         v = judge_landing(case, obs)
         ctx.outcome('landing:%s:%s' % (case['kind'], v[0][0] if v else 'ok'))
         report({'kind': case['kind'], 'init_state': case['init_state'], 'events': case['events'], 'site': case.get('_site')}, v,
-               'LAND/%s/terminate@%s' % (case['kind'], land.site_sig(case['_site'], REPO)), obs)
+               'LAND/%s/terminate@%s' % (case['kind'], land.site_sig(((obs.get('landed') or [{}])[0].get('site')) or case['_site'], REPO)), obs)
     for b, s in list(zip(bases, scs))[:3]:
         ctx.sample({'part': 'landing', 'kind': s['kind'], 'landing_points_on_base_path': b.get('events_total')})
     # parent-side delay point
